@@ -282,6 +282,9 @@ func c12Language(c *hx.Ctx, r *hx.RNG) {
 			s = " " + s
 		}
 	}
+	if r.Chance(3) { // the infinity spellings and their neighbours
+		s = []string{"", "+", "-", "+-", " "}[r.Intn(5)] + []string{"Inf", "inf", "INF", "iNF", "Infinity", "infinity", "in", "Inff", "inf ", "Inf.", "Inf0", "nan", "NaN", "i", "I", "1nf"}[r.Intn(16)]
+	}
 	base := []int{0, 2, 8, 10, 16}[r.Intn(5)]
 	mode := r.Mode()
 	p := int64(r.Range(0, 40))
@@ -293,6 +296,7 @@ func c12Language(c *hx.Ctx, r *hx.RNG) {
 	// all five entry points: totality and nil-on-error
 	var accepted bool
 	var gotBase int
+	var parsed hx.State
 	for via := 0; via < 5; via++ {
 		if (via == 1 || via == 3 || via == 4) && base != 0 {
 			continue
@@ -323,6 +327,26 @@ func c12Language(c *hx.Ctx, r *hx.RNG) {
 		}
 		if via == 0 {
 			accepted, gotBase = ok, b
+			if ok {
+				parsed = hx.Snapshot(res)
+			}
+		} else if via < 4 {
+			// SetString, ParseDecimal and UnmarshalText are Parse under another signature: same language, same value
+			c.Count("entry_point_agreement_checks", 1)
+			if ok != accepted {
+				c.Violate("entry-points-disagree", fmt.Sprintf("%s(%q) accepted=%v but Parse(%q, %d) accepted=%v", viaNames[via], s, ok, s, base, accepted), "")
+				return
+			}
+			if ok {
+				zz := z
+				if hasRes {
+					zz = res
+				}
+				if got := hx.Snapshot(zz); got.Prec != parsed.Prec || got.Mode != parsed.Mode || got.Acc != parsed.Acc || got.V.Form != parsed.V.Form || got.V.Neg != parsed.V.Neg || !oracle.Equal(got.V, parsed.V) {
+					c.Violate("entry-points-disagree", fmt.Sprintf("%s(%q) stored %s, Parse(%q, %d) with the same precision and mode stored %s", viaNames[via], s, got, s, base, parsed), "")
+					return
+				}
+			}
 		}
 	}
 	cls := "language/rejected"
